@@ -46,6 +46,12 @@ namespace GeographicLib {
       throw GeographicErr("Polar semi-axis is not positive");
     fill(_c, _c + Lmax * AUXNUMBER * AUXNUMBER,
          numeric_limits<real>::quiet_NaN());
+    // Compute the series coefficients now instead of on first use in Convert,
+    // so that the const member functions do not modify the object and can be
+    // called from several threads at once.
+    for (int auxout = 0; auxout < AUXNUMBER; ++auxout)
+      for (int auxin = 0; auxin < AUXNUMBER; ++auxin)
+        fillcoeff(auxin, auxout, ind(auxout, auxin));
   }
 
   /// \cond SKIP
@@ -73,6 +79,12 @@ namespace GeographicLib {
       throw GeographicErr("Polar semi-axis is not positive");
     fill(_c, _c + Lmax * AUXNUMBER * AUXNUMBER,
          numeric_limits<real>::quiet_NaN());
+    // Compute the series coefficients now instead of on first use in Convert,
+    // so that the const member functions do not modify the object and can be
+    // called from several threads at once.
+    for (int auxout = 0; auxout < AUXNUMBER; ++auxout)
+      for (int auxin = 0; auxin < AUXNUMBER; ++auxin)
+        fillcoeff(auxin, auxout, ind(auxout, auxin));
   }
   /// \endcond
 
